@@ -10,6 +10,7 @@ mod c12;
 mod common;
 
 fuzz_target!(|data: &[u8]| {
+    common::quiet_panics();
     if data.is_empty() {
         return;
     }
